@@ -91,6 +91,11 @@ def headingFrom : Nat → SMap → List Tx
 def heading : SMap → List Tx
   | [] => []
   | (k, x) :: r => headingFrom k ((k, x) :: r)
+
+/-- `(*m.index)[0]`: the lowest nonce held (0 for an empty list; only used in statements) -/
+def firstKey : SMap → Nat
+  | [] => 0
+  | (k, _) :: _ => k
 end SMap
 
 /-! ### TXPool -/
@@ -244,7 +249,8 @@ def splitExpired (height count : Nat) : List VTx → List VTx → List VTx × Li
     else if acc.length < count then splitExpired height count r (e :: acc)
     else splitExpired height count r acc
 
-/-- removal of the expired transactions; `none` = nil dereference (`tp.eipTxPool[tx.Payer]` absent) -/
+/-- removal of the expired transactions; `none` = nil dereference (`tp.eipTxPool[tx.Payer]` absent) — proved unreachable
+over all histories (`C35_no_panic`) -/
 def removeOld (p : Pool) : List Tx → Option Pool
   | [] => some p
   | t :: r =>
